@@ -197,7 +197,7 @@ def gen_ops(rng, sk, tmp, n):
                 v = F.gen_value(rng, sf["field"], tmp, 0.0)
                 if not isinstance(v, str):
                     v = str(v) if isinstance(v, (int, float)) and not isinstance(v, bool) else "x"
-                if "\n" in v or v != v.strip("\x1c\x1d\x1e\x1f") or "\ud800" <= max(v, default="a") <= "\udfff":
+                if "\n" in v or v != v.strip("\x1c\x1d\x1e\x1f") or "\ud800" <= max(v, default="a") <= "\udfff" or v == "--":     # ("--" is argparse's own separator, also after "=")
                     v = "val"
                 argv.append("%s=%s" % (o, v))
                 given.append((p, v))
